@@ -33,7 +33,12 @@ every comparison the current `m` (and `u`) values of the levels that occur in th
 sum to at most 1.  This is needed: EM's new value for a block is the maximiser of the
 block's term of the expected complete-data log-likelihood *among (sub-)probability
 vectors*; a starting vector with sum > 1 can have a larger likelihood than any
-probability vector.  The hypothesis holds for Splink's default starting values (the
+probability vector.  That the hypothesis cannot be dropped is itself a theorem,
+`loglik_mono_needs_subnormalised`: a one-row instance meeting every other hypothesis whose
+observed level starts at `m = u = 2`, where one unfixed step strictly lowers `logLik`
+(from `log 2` to `log 1`).  Splink can reach such a start: a session may begin from the
+medians of earlier sessions' estimates, whose observed levels can sum to more than 1
+(known finding K8).  The hypothesis holds for Splink's default starting values (the
 levels' `m`/`u` of a comparison sum to 1: `subnormalised_of_sum_le_one`) and it is
 preserved by the step: `emStep_subnormalised` (the new observed values of an unfixed
 block sum to exactly 1) and `emStep_hypotheses_preserved` (all hypotheses hold again
@@ -159,5 +164,73 @@ example : logLik exγ exn exθ ≤ logLik exγ exn (emStep false false false (1 
     intro c; rw [Fin.sum_univ_two]; simp only [exθ]; norm_num
   exact loglik_mono false false false _ exγ exn exθ (by norm_num [exθ]) (by norm_num [exθ]) hm hu hn
     (subnormalised_of_sum_le_one exγ exθ.m hm sm) (subnormalised_of_sum_le_one exγ exθ.u hu su)
+
+/-! ## The sub-normalisation hypothesis is necessary (known finding K8)
+
+One comparison with two levels, one row (count 1) that observes level 0,
+`lam = 1/2`, `m = u = (2, 1/2)`: the observed level's `m` and `u` are 2 > 1.  The row's
+likelihood is `1/2·2 + 1/2·2 = 2`; after the step `lam' = 1/2`, `m'(0) = u'(0) = 1`, the
+likelihood is 1, and the log-likelihood falls from `log 2` to `log 1 = 0`. -/
+
+/-- the single pattern: level 0 of the only comparison -/
+def k8γ : Fin 1 → Pattern 1 (fun _ => 2) := fun _ _ => some 0
+
+/-- count 1 -/
+def k8n : Fin 1 → ℝ := fun _ => 1
+
+/-- `lam = 1/2`, `m = u = (2, 1/2)`: super-normalised on the observed level -/
+noncomputable def k8θ : Params 1 (fun _ => 2) where
+  lam := 1 / 2
+  m := fun _ l => if l = 0 then 2 else 1 / 2
+  u := fun _ l => if l = 0 then 2 else 1 / 2
+
+theorem k8_observed : Observed k8γ 0 0 := ⟨0, rfl⟩
+
+/-- the likelihood of the row under the super-normalised start is 2 -/
+theorem k8_lik : lik k8θ (k8γ 0) = 2 := by
+  simp [lik, pm, pu, fac, optFac, k8θ, k8γ]
+  norm_num
+
+/-- the posterior of the row is 1/2 -/
+theorem k8_post : post k8θ (k8γ 0) = 1 / 2 := by
+  rw [post, k8_lik]
+  simp [pm, fac, optFac, k8θ, k8γ]
+
+/-- the likelihood of the row after one EM step is 1 -/
+theorem k8_lik_step (ph : ℝ) :
+    lik (emStep false false false ph k8γ k8n k8θ) (k8γ 0) = 1 := by
+  have hγ : ∀ j c, k8γ j c = some 0 := fun _ _ => rfl
+  have hp : ∀ j, post k8θ (k8γ j) = 1 / 2 := fun j => k8_post
+  have hl : (emStep false false false ph k8γ k8n k8θ).lam = 1 / 2 := by
+    rw [emStep_lam]; simp [hp, k8n]
+  have hm : (emStep false false false ph k8γ k8n k8θ).m 0 0 = 1 := by
+    rw [emStep_m, if_pos k8_observed]; simp [hp, k8n, hγ]
+  have hu : (emStep false false false ph k8γ k8n k8θ).u 0 0 = 1 := by
+    rw [emStep_u, if_pos k8_observed]; simp [hp, k8n, hγ]; norm_num
+  simp only [lik, pm, pu, fac, optFac, Finset.univ_unique, Finset.prod_singleton, Fin.default_eq_zero,
+    hγ 0 0, hl, hm, hu]
+  norm_num
+
+/-- **The sub-normalisation hypothesis of `loglik_mono` cannot be dropped** (K8): there are
+data and parameters meeting every other hypothesis (`0 < lam < 1`, `m`, `u` > 0, positive
+counts, a positive placeholder) for which one EM step (nothing fixed) strictly lowers the
+observed-data log-likelihood. -/
+theorem loglik_mono_needs_subnormalised :
+    ∃ (C : ℕ) (L : Fin C → ℕ) (J : Type) (_ : Fintype J) (_ : Nonempty J)
+      (γ : J → Pattern C L) (n : J → ℝ) (θ : Params C L) (ph : ℝ),
+      0 < θ.lam ∧ θ.lam < 1 ∧ (∀ c l, 0 < θ.m c l) ∧ (∀ c l, 0 < θ.u c l) ∧ (∀ j, 0 < n j) ∧
+      0 < ph ∧
+      logLik γ n (emStep false false false ph γ n θ) < logLik γ n θ := by
+  refine ⟨1, fun _ => 2, Fin 1, inferInstance, inferInstance, k8γ, k8n, k8θ, 1 / 1000000,
+    ?_, ?_, ?_, ?_, ?_, ?_, ?_⟩
+  · norm_num [k8θ]
+  · norm_num [k8θ]
+  · intro c l; simp only [k8θ]; split_ifs <;> norm_num
+  · intro c l; simp only [k8θ]; split_ifs <;> norm_num
+  · intro j; simp [k8n]
+  · norm_num
+  · simp only [logLik, Finset.univ_unique, Finset.sum_singleton, Fin.default_eq_zero, k8_lik_step,
+      k8_lik, Real.log_one, k8n, one_mul]
+    exact Real.log_pos (by norm_num)
 
 end SplinkVerif.C03L
